@@ -1,7 +1,7 @@
 (* C08 — cumulative operations are per-group prefix reductions. *)
 From Coq Require Import List ZArith Bool.
 From GL Require Import Lib.Arr Lib.Keyed Model.Dom Model.Scalar Model.Cumulative
-  Spec.Defs Proofs.ReduceSeries Proofs.RowGeneric Proofs.CumProofs Proofs.CumSpec Spec.RowSpec Proofs.GenTie Gen.ScalarFuncsGen.
+  Spec.Defs Proofs.ReduceSeries Proofs.RowGeneric Proofs.CumProofs Proofs.CumSpec Proofs.CumArray Spec.RowSpec Proofs.GenTie Gen.ScalarFuncsGen.
 Import ListNotations.
 Open Scope Z_scope.
 
@@ -129,6 +129,24 @@ Print Assumptions C08_cumulative_is_prefix_reduction_int.
 Print Assumptions C08_cumsum_noskip_float.
 Print Assumptions C08_cumsum_noskip_int.
 
+(* ---- the kernel AS WRITTEN (arrays: the running value is read back from the output array at the group's previous
+   accepted row, target[-1] before the first one; masked rows copy it; null-key rows are overwritten afterwards)
+   computes the per-group-cell model, hence the prefix reductions above ---- *)
+Theorem C08_array_kernel_is_the_cell_model {V} (o : ops V) temporal op skip_na gk vals ng mask :
+  length vals = length gk -> wf_mask (length gk) mask -> (forall k, In k gk -> k < Z.of_nat ng) ->
+  cumulative_array o temporal op skip_na gk vals ng mask = cumulative_t o temporal op skip_na gk vals ng mask.
+Proof. exact (cumulative_array_is_cumulative o temporal op skip_na gk vals ng mask). Qed.
+Theorem C08_array_kernel_is_prefix_reduction_float op gk (vals : list fl) ng mask :
+  length vals = length gk -> wf_mask (length gk) mask -> (forall k, In k gk -> k < Z.of_nat ng) ->
+  cumulative_array fops false op true gk vals ng mask = cum_spec fops op gk vals mask.
+Proof.
+  exact (fun Hv Hm Hng => eq_trans (cumulative_array_is_cumulative fops false op true gk vals ng mask Hv Hm Hng)
+                                   (cumulative_is_cum_spec fops fops_laws false op gk vals ng mask Hv Hm Hng)).
+Qed.
+Print Assumptions C08_array_kernel_is_the_cell_model.
+Print Assumptions C08_array_kernel_is_prefix_reduction_float.
+
 Example C08_example :
-  cumulative (zops true 0) CMax true [0; 1; 0; -1; 0] [5; 100; MIN_INT; 100; 7] 2 None = [5; 100; 5; MIN_INT; 7].
-Proof. vm_compute. reflexivity. Qed.
+  cumulative (zops true 0) CMax true [0; 1; 0; -1; 0] [5; 100; MIN_INT; 100; 7] 2 None = [5; 100; 5; MIN_INT; 7] /\
+  cumulative_array (zops true 0) false CMax true [0; 1; 0; -1; 0] [5; 100; MIN_INT; 100; 7] 2 (Some [true; true; false; true; true]) = [5; 100; 5; MIN_INT; 7].
+Proof. split; vm_compute; reflexivity. Qed.
